@@ -218,42 +218,59 @@ def _run_numba(sh, rec):
                         continue
                     if to.get("parallel"):
                         rec.violation(f"numba-parallel:{nm}", f"{nm} ({d}-D, {kern}) is compiled with parallel={to.get('parallel')}: marker order is not fixed", {"kernel": nm})
-                # all markers stacked on one interior position
-                P = np.empty((d, N))
-                P[...] = rng.uniform(0.3, 0.7, size=(d, 1))
-                sup = np.zeros((d,) + (4,) * d + (N,), real_t)
-                idx = np.zeros((d, N), dtype=int)
-                w = np.zeros((4,) * d + (N,), real_t)
-                c.local_eulerian_grid_support_of_lagrangian_grid_kernel(sup, idx, P)
-                c.interpolation_weights_kernel(w, sup)
-                Fm = rng.standard_normal((ncomp, N)) if ncomp > 1 else rng.standard_normal(N)
-                results = []
-                for nthreads in (1, min(16, numba.config.NUMBA_NUM_THREADS)):
-                    numba.set_num_threads(nthreads)
-                    for rep in range(10):
-                        g = np.zeros(((ncomp,) if ncomp > 1 else ()) + (n,) * d, real_t)
-                        c.lagrangian_to_eulerian_grid_interpolation_kernel(g, Fm, w, idx)
-                        results.append(g)
-                        rec.count("stacked_spread_repeats")
-                same = all(util.bits_equal(results[0], r) for r in results[1:])
-                if not same:
-                    rec.violation("spreading-run-dependent", f"stacked-marker spreading gives different bytes across repeats/thread counts ({d}-D {kern} ncomp={ncomp})", {"d": d})
-                # index-order accumulation reference
-                ref = np.zeros_like(results[0], dtype=np.float64)
-                sl = tuple(slice(int(idx[d - 1 - a, 0]) - 1, int(idx[d - 1 - a, 0]) + 3) for a in range(d))
-                Fm2 = Fm.reshape(ncomp, N) if ncomp > 1 else Fm.reshape(1, N)
-                acc = np.einsum("cm,...m->c...", Fm2, w.astype(np.float64))
-                absacc = np.einsum("cm,...m->c...", np.abs(Fm2), np.abs(w).astype(np.float64))
-                if ncomp > 1:
-                    ref[(slice(None),) + sl] = acc
-                else:
-                    ref[sl] = acc[0]
-                tol = 4 * N * util.eps(real_t) * float(absacc.max())
-                r = util.err_over_tol(results[0], ref, tol)
-                rec.stat("stacked_spread_vs_index_order", r)
-                if r > 1:
-                    rec.violation("spreading!=index-order-accumulation", f"err/tol={r:.3g} ({d}-D {kern} ncomp={ncomp})", {"d": d})
-                rec.case(("stacked-spread", d, kern, ncomp), sample={"dim": d, "kernel": kern, "components": ncomp, "markers": N, "bitwise_repeatable": same})
+                for pattern in ("stacked", "revisit"):
+                    _spread_pattern(rec, rng, numba, c, d, N, n, ncomp, kern, real_t, pattern)
+
+
+def _spread_pattern(rec, rng, numba, c, d, N, n, ncomp, kern, real_t, pattern):
+    """spreading must be a marker-by-marker accumulation in index order: bitwise repeatable over repeats and numba thread
+    counts, and equal to the index-order sum (per visited cell, from the kernel's own weights and indices) to the floor"""
+    P = np.empty((d, N))
+    if pattern == "stacked":
+        P[...] = rng.uniform(0.3, 0.7, size=(d, 1))  # all markers on one interior position
+    else:
+        # markers REVISIT cells: positions cycle through three points in different cells (A, B, C, A, B, C, ...): no two consecutive
+        # markers share a cell, yet every cell receives N/3 contributions
+        pts = np.array([[0.31, 0.52, 0.68]] * d) + rng.uniform(-0.01, 0.01, size=(d, 3))
+        P[...] = pts[:, np.arange(N) % 3]
+    sup = np.zeros((d,) + (4,) * d + (N,), real_t)
+    idx = np.zeros((d, N), dtype=int)
+    w = np.zeros((4,) * d + (N,), real_t)
+    c.local_eulerian_grid_support_of_lagrangian_grid_kernel(sup, idx, P)
+    c.interpolation_weights_kernel(w, sup)
+    Fm = rng.standard_normal((ncomp, N)) if ncomp > 1 else rng.standard_normal(N)
+    results = []
+    for nthreads in (1, min(16, numba.config.NUMBA_NUM_THREADS)):
+        numba.set_num_threads(nthreads)
+        for rep in range(6):
+            g = np.zeros(((ncomp,) if ncomp > 1 else ()) + (n,) * d, real_t)
+            c.lagrangian_to_eulerian_grid_interpolation_kernel(g, Fm, w, idx)
+            results.append(g)
+            rec.count("stacked_spread_repeats")
+    same = all(util.bits_equal(results[0], r) for r in results[1:])
+    if not same:
+        rec.violation("spreading-run-dependent", f"{pattern}-marker spreading gives different bytes across repeats/thread counts ({d}-D {kern} ncomp={ncomp})", {"d": d})
+    ref = np.zeros_like(results[0], dtype=np.float64)
+    Fm2 = Fm.reshape(ncomp, N) if ncomp > 1 else Fm.reshape(1, N)
+    groups = {}
+    for mk in range(N):
+        groups.setdefault(tuple(int(x) for x in idx[:, mk]), []).append(mk)
+    absmax = 0.0
+    for key, members in groups.items():
+        sl = tuple(slice(key[d - 1 - a] - 1, key[d - 1 - a] + 3) for a in range(d))
+        acc = np.einsum("cm,...m->c...", Fm2[:, members], w[..., members].astype(np.float64))
+        absmax = max(absmax, float(np.einsum("cm,...m->c...", np.abs(Fm2[:, members]), np.abs(w[..., members]).astype(np.float64)).max()))
+        if ncomp > 1:
+            ref[(slice(None),) + sl] += acc
+        else:
+            ref[sl] += acc[0]
+    tol = 4 * N * util.eps(real_t) * absmax
+    r = util.err_over_tol(results[0], ref, tol)
+    rec.stat("spread_vs_index_order_accumulation", r)
+    rec.count("cells_groups_revisited" if pattern == "revisit" else "cells_groups_stacked", len(groups))
+    if r > 1:
+        rec.violation("spreading!=index-order-accumulation", f"err/tol={r:.3g} pattern={pattern} ({d}-D {kern} ncomp={ncomp})", {"d": d, "pattern": pattern})
+    rec.case(("spread", pattern, d, kern, ncomp), sample={"dim": d, "kernel": kern, "components": ncomp, "markers": N, "pattern": pattern, "bitwise_repeatable": same})
 
 
 def _run_repotests(sh, rec):
